@@ -823,6 +823,12 @@ pub fn variants(ops_path: &str, scratch: &str) -> (u64, Vec<String>) {
                     ("strict().open(path)", true, cfb::OpenOptions::new().strict().open(&file_path).is_ok()),
                     ("strict().open_rw(path)", true, cfb::OpenOptions::new().strict().open_rw(&file_path).is_ok()),
                     ("max_buffer_size(2048).strict().open_rw(path)", true, cfb::OpenOptions::new().max_buffer_size(2048).strict().open_rw(&file_path).is_ok()),
+                    // the options in the other order, for several buffer sizes: the outcome of opening must not depend
+                    // on the buffer size that is configured, nor on the order in which the builder is told
+                    ("strict().max_buffer_size(2048).open_rw(path)", true, cfb::OpenOptions::new().strict().max_buffer_size(2048).open_rw(&file_path).is_ok()),
+                    ("strict().max_buffer_size(1).open_with(Cursor)", true, cfb::OpenOptions::new().strict().max_buffer_size(1).open_with(std::io::Cursor::new(dev.clone())).is_ok()),
+                    ("strict().max_buffer_size(1 MiB).open(path)", true, cfb::OpenOptions::new().strict().max_buffer_size(1 << 20).open(&file_path).is_ok()),
+                    ("max_buffer_size(4096).open_with(Cursor)", false, cfb::OpenOptions::new().max_buffer_size(4096).open_with(std::io::Cursor::new(dev.clone())).is_ok()),
                     ("open(path)", false, cfb::open(&file_path).is_ok()),
                     ("open_rw(path)", false, cfb::open_rw(&file_path).is_ok()),
                     ("OpenOptions::new().open_rw(path)", false, cfb::OpenOptions::new().open_rw(&file_path).is_ok()),
